@@ -320,7 +320,60 @@ def mut_name(s):
 
 
 # ----------------------------------------------------------------------------------- the oracle
+def check_shared_case(ctx: runner.Ctx, case):
+    """One provider instance (no class predicate) in one retort serves TWO classes whose members have pairwise equal
+    values (mixed-in members hash and compare by value): each class must keep its own names and members."""
+    specs = [case["cls"], case["cls2"]]
+    try:
+        classes = [build_class(sp) for sp in specs]
+    except Exception:  # noqa: BLE001
+        ctx.count("class_rejected_by_python")
+        return
+    prov = case["prov"]
+    style = NameStyle[prov["name_style"]] if prov.get("name_style") else None
+    if prov["kind"] == "by_name":
+        provider = enum_by_name(name_style=style)
+    else:
+        provider = flag_by_member_names(name_style=style, allow_single_value=prov.get("allow_single_value", False))
+    retort = Retort(recipe=[provider], strict_coercion=case["strict"], debug_trail=DEBUG[case["debug"]])
+    ctx.case(["shared", case], True, sample={"shared_provider": True, "classes": specs, "provider": prov},
+             labels=["kind:shared_provider", f"kind:{prov['kind']}"])
+    order = [0, 1] if case.get("order", True) else [1, 0]
+    for i in order:
+        cls, sp = classes[i], specs[i]
+        named = all_named(cls)
+        if style is not None and not all(n.isascii() and "__" not in n and _title_safe(n) for n, _ in named):
+            ctx.count("skipped_name_not_convertible")
+            return
+        mp = {n: (ref_style(n, style) if style else n) for n, _ in named}
+        if len(set(mp.values())) != len(mp):
+            ctx.count("skipped_user_mapping_collides")
+            return
+        for n, m in named:
+            if prov["kind"] != "by_name" and (m.value == 0 or not is_power_of_two(m.value)):
+                continue
+            try:
+                d = retort.dump(m, cls)
+            except Exception as e:  # noqa: BLE001
+                ctx.violation("dump_crashed", ("shared_provider", type(e).__name__, exc_site(e)), case, f"{m!r}: {describe(e)}")
+                continue
+            exp = mp[n] if prov["kind"] == "by_name" else [mp[n]]
+            if d != exp:
+                ctx.violation("dump_form", ("shared_provider", prov["kind"]), case,
+                              f"class #{i} {sp['members']}: dump({m!r}) = {d!r}, expected {exp!r} (other class: {specs[1 - i]['members']})")
+                continue
+            try:
+                back = retort.load(d, cls)
+            except Exception as e:  # noqa: BLE001
+                ctx.violation("roundtrip_failed", ("shared_provider", type(e).__name__), case, f"load({d!r}) for {m!r}: {describe(e)}")
+                continue
+            if not (back is m or (isinstance(m, enum.Flag) and back == m and type(back) is type(m))):
+                ctx.violation("roundtrip_differs", ("shared_provider",), case, f"load(dump({m!r})) = {back!r} of {type(back).__name__}")
+
+
 def check_case(ctx: runner.Ctx, case):  # noqa: C901, PLR0912, PLR0915
+    if case.get("shared"):
+        return check_shared_case(ctx, case)
     spec, prov = case["cls"], case["prov"]
     try:
         cls = build_class(spec)
@@ -669,13 +722,36 @@ def fixed_cases():
                                "strict": strict, "debug": dbg}
 
 
+@st.composite
+def st_shared_case(draw):
+    flag = draw(st.booleans())
+    base = draw(st.sampled_from(["IntFlag", "Flag"] if flag else ["IntEnum", "StrEnum", "str_Enum", "int_Enum", "Enum"]))
+    n = draw(st.integers(1, 4))
+    if flag:
+        values = [1 << i for i in range(n)]
+    elif base in ("IntEnum", "int_Enum", "Enum"):
+        values = draw(st.lists(st.sampled_from([0, 1, 2, 3, 10]), min_size=n, max_size=n, unique=True))
+    else:
+        values = draw(st.lists(st.sampled_from(["a", "b", "c", "x y"]), min_size=n, max_size=n, unique=True))
+    names = draw(st_names(2 * n))
+    spec1 = {"base": base, "members": [[a, v] for a, v in zip(names[:n], values)], "missing": False}
+    spec2 = {"base": base, "members": [[a, v] for a, v in zip(names[n:], values)], "missing": False}
+    prov = {"kind": "flag_names" if flag else "by_name", "name_style": draw(st_style()), "map": {}}
+    if flag:
+        prov["allow_single_value"] = draw(st.booleans())
+    return {"shared": True, "cls": spec1, "cls2": spec2, "prov": prov, "strict": draw(st.booleans()),
+            "debug": draw(st.integers(0, 2)), "order": draw(st.booleans())}
+
+
 def explore(ctx: runner.Ctx):
     if ctx.shard == 0:
         for case in fixed_cases():
             check_case(ctx, case)
         ctx.mark_exhaustive("per generated (class, provider, options): every member, every OR-combination of "
                             "flag members (2^n, n<=9 named members) and the full candidate set are enumerated")
-    ctx.given(st_case(), lambda case: check_case(ctx, case), ctx.budget(8000, 200000))
+    n = ctx.budget(8000, 200000)
+    ctx.given(st_case(), lambda case: check_case(ctx, case), int(n * 0.9))
+    ctx.given(st_shared_case(), lambda case: check_case(ctx, case), max(1, int(n * 0.1)), seed_offset=1)
 
 
 RULE = ("cases = generated (enum/flag class spec, provider, options, strict_coercion, debug_trail); for each, all "
@@ -685,7 +761,7 @@ RULE = ("cases = generated (enum/flag class spec, provider, options, strict_coer
 
 if __name__ == "__main__":
     raise SystemExit(runner.main(
-        PROP, explore=explore, check_case=check_case, strategy=st_case(), rule=RULE,
+        PROP, explore=explore, check_case=check_case, strategy=st.one_of(st_case(), st_shared_case()), rule=RULE,
         assumptions=[
             "equal-but-differently-typed data (True for 1), pseudo-members inside a flag mask, alias names, "
             "custom _missing_ hits and lax-coercion mappings are treated as unspecified (counted, not asserted)",
